@@ -583,7 +583,7 @@ fn rerun_range(ctx: &mut Ctx, s: &Subject, from: usize, to: usize) {
     let _ = std::fs::remove_file(&report);
 }
 
-fn merge_child(ctx: &mut Ctx, j: &J) {
+pub fn merge_child(ctx: &mut Ctx, j: &J) {
     if let Some(n) = j.get("evaluations").and_then(|x| x.as_int()) {
         ctx.evals(n as u64);
     }
